@@ -46,6 +46,40 @@ func (s c30Shape) estimate() (int64, error) {
 		VirtualSize()
 }
 
+// estimateStepwise builds the same shape on one estimator and reads the
+// virtual size after every step (read, extend, read again - a caller sizing a
+// transaction while it adds inputs). It returns the last reading and whether
+// the readings ever decreased.
+func (s c30Shape) estimateStepwise() (last int64, decreased bool, err error) {
+	e := NewTransactionSizeEstimator()
+	steps := []func(){
+		func() { e.AddPublicKeyHashInputs(s.In[0], false) },
+		func() { e.AddPublicKeyHashInputs(s.In[1], true) },
+		func() { e.AddScriptHashInputs(s.In[2], s.LSH, false) },
+		func() { e.AddScriptHashInputs(s.In[3], s.LWSH, true) },
+		func() { e.AddPublicKeyHashOutputs(s.Out[0], false) },
+		func() { e.AddPublicKeyHashOutputs(s.Out[1], true) },
+		func() { e.AddScriptHashOutputs(s.Out[2], false) },
+		func() { e.AddScriptHashOutputs(s.Out[3], true) },
+	}
+	prev := int64(-1)
+	if v, verr := e.VirtualSize(); verr == nil {
+		prev = v
+	}
+	for _, st := range steps {
+		st()
+		v, verr := e.VirtualSize()
+		if verr != nil {
+			return 0, decreased, verr
+		}
+		if v < prev {
+			decreased = true
+		}
+		prev, last = v, v
+	}
+	return last, decreased, nil
+}
+
 func c30Redeem(rng *rand.Rand, key *c27kitKey, length int) []byte {
 	switch length {
 	case 92:
@@ -175,6 +209,20 @@ func TestVerif_C30_Estimator(t *testing.T) {
 			r.Case(s.String(), true)
 			r.Violation("estimate:error", "estimator failed for a valid shape: "+eerr.Error(), s.String(), nil)
 			return
+		}
+		// the estimate is a function of the shape: reading it while the shape
+		// is being built must not change what is read afterwards
+		var stepEst int64
+		var stepDec bool
+		var stepErr error
+		if !r.Guard("estimate-stepwise:", s.String(), func() { stepEst, stepDec, stepErr = s.estimateStepwise() }) {
+			if stepErr != nil {
+				r.Violation("estimate:stepwise-error", "estimator failed when read after every step: "+stepErr.Error(), s.String(), nil)
+			} else if stepEst != est {
+				r.Violation("estimate:reading-changes-later-estimate", fmt.Sprintf("the same shape estimates to %d vbytes when the size is read once at the end and to %d when it is also read after every step", est, stepEst), s.String(), nil)
+			} else if stepDec {
+				r.Violation("estimate:decreases-while-growing", "the estimate decreased although inputs/outputs were only added", s.String(), nil)
+			}
 		}
 		for pass, maximal := range []bool{true, false} {
 			rng := r.SubRand(fmt.Sprintf("real%d", pass), i)
